@@ -143,6 +143,15 @@ def fill_scales_for_dyadic_pyramid(info, target_chunk_size=64,
     max_downscale_level = max(max_downscale_level, 1)
     info["scales"] = [downscale_info(scale_level)
                       for scale_level in range(max_downscale_level)]
+    # The key is derived from the smallest resolution, which for anisotropic
+    # volumes can grow by less than a factor of two between levels: switch to
+    # a finer unit until all keys are distinct.
+    units = list(LENGTH_UNITS)
+    while (len({scale_info["key"] for scale_info in info["scales"]})
+           != len(info["scales"]) and key_unit != units[-1]):
+        key_unit = units[units.index(key_unit) + 1]
+        info["scales"] = [downscale_info(scale_level)
+                          for scale_level in range(max_downscale_level)]
     return info
 
 
